@@ -8,6 +8,7 @@ git -C /repo worktree add --detach $wt HEAD >/dev/null 2>&1 || { echo "worktree 
 trap 'git -C /repo worktree remove --force $wt; rm -rf $scratch' EXIT
 for d in seeded/${1:-}*/; do
   id=$(basename $d); prop=${id%%-*}
+  cw=$(python3 -c "import json,sys; print(json.load(open('$d/meta.json')).get('check_with',''))" 2>/dev/null); [ -n "$cw" ] && prop=$cw
   [ -f $d/patch.diff ] || continue
   if ! git -C $wt apply --check $PWD/$d/patch.diff 2>/dev/null; then echo "$id patch-does-not-apply" | tee -a $out; continue; fi
   git -C $wt apply $PWD/$d/patch.diff
